@@ -41,24 +41,33 @@ LInit ==
   /\ keyed = FALSE /\ hsDone = 0 /\ srvHs = FALSE /\ mustProtect = FALSE
   /\ lastSentProt = "none" /\ lastRecvProt = "none" /\ dispatched = 0 /\ ran = ""
 
-LKeyInstall ==
+\* Every action is split into its RULE (a predicate over the current state and
+\* the event: what the properties demand) and its UPDATE (how the life-cycle
+\* state moves).  Trace validation requires rule /\ update at every event; the
+\* composed model CedarConn.tla performs the update and records the rule's
+\* verdict in a monitor variable that its invariants inspect.
+
+KeyInstallUpd ==
   /\ keyed' = TRUE
   /\ UNCHANGED <<hsDone, srvHs, mustProtect, lastSentProt, lastRecvProt, dispatched, ran>>
+LKeyInstall == KeyInstallUpd
 
 \* a frame was sent (dir = "out") or accepted (dir = "in"); prot = keyed /\ encrypting
-LFrame(dir, prot) ==
+FrameRule(dir, prot) ==
   /\ mustProtect => prot                                      \* L2
   /\ prot => keyed
+FrameUpd(dir, prot) ==
   /\ IF dir = "out" THEN lastSentProt' = YN(prot) /\ UNCHANGED lastRecvProt
                     ELSE lastRecvProt' = YN(prot) /\ UNCHANGED lastSentProt
   /\ UNCHANGED <<keyed, hsDone, srvHs, mustProtect, dispatched, ran>>
+LFrame(dir, prot) == FrameRule(dir, prot) /\ FrameUpd(dir, prot)
 
 LAuthRan(m, ok) ==
   /\ ran' = IF ok /\ m # "NONE" THEN m ELSE ran
   /\ UNCHANGED <<keyed, hsDone, srvHs, mustProtect, lastSentProt, lastRecvProt, dispatched>>
 
 \* d = HandshakeDone record
-LHandshakeDone(d) ==
+HandshakeRule(d) ==
   /\ HandshakeOK(d, ran)                                      \* per-event rules (C03)
   /\ d.streamEnc => keyed                                     \* L4
   \* L1: the last handshake message (post-auth ad / resumption reply) travelled
@@ -68,18 +77,22 @@ LHandshakeDone(d) ==
      THEN IF d.client THEN (lastRecvProt # "none" => lastRecvProt = YN(d.streamEnc))
                       ELSE (lastSentProt # "none" => lastSentProt = YN(d.streamEnc))
      ELSE TRUE
+HandshakeUpd(d) ==
   /\ hsDone' = hsDone + 1
   /\ srvHs' = (srvHs \/ ~d.client)
   /\ mustProtect' = (mustProtect \/ d.polEnc = "REQUIRED" \/ d.polInt = "REQUIRED")
   /\ ran' = ""
   /\ UNCHANGED <<keyed, lastSentProt, lastRecvProt, dispatched>>
+LHandshakeDone(d) == HandshakeRule(d) /\ HandshakeUpd(d)
 
 \* x = Dispatch record
-LDispatch(x) ==
+DispatchRule(x) ==
   /\ DispatchOK(x)                                            \* per-event rules (C05)
   /\ (x.path = "auth" => srvHs)                               \* L3
   /\ (x.path = "raw" => hsDone = 0)                           \* raw handlers never ride a handshake
   /\ (x.followOn => dispatched > 0)
+DispatchUpd(x) ==
   /\ dispatched' = dispatched + 1
   /\ UNCHANGED <<keyed, hsDone, srvHs, mustProtect, lastSentProt, lastRecvProt, ran>>
+LDispatch(x) == DispatchRule(x) /\ DispatchUpd(x)
 =============================================================================
